@@ -40,9 +40,10 @@ SHAPES: Dict[str, Tuple[str, int, Any]] = {
     "orand": ("{0} || {1} && {2}", 3, lambda v: v[0] or (v[1] and v[2])),
     "call": ("[{0}, {1}].exists(x, x)", 2, lambda v: v[0] or v[1]),
     "index": ("{{'k': {0}}}['k']", 1, lambda v: v[0]),
+    "strpre": ("')' != '(' && {0}", 1, lambda v: v[0]),
     "strq": ("[{0}, '&& || ? :' == ')'].exists(x, x)", 1, lambda v: v[0]),
 }
-COMPOUND = ["and", "or", "tern", "off", "on", "andor", "orand"]
+COMPOUND = ["and", "or", "tern", "off", "on", "andor", "orand", "strpre"]
 SIMPLE = [s for s in SHAPES if s not in COMPOUND]
 
 # real Custodian clauses (resource type, clause) — every family with a compound translation, and plain ones
@@ -289,7 +290,7 @@ class C18(Prop):
                "text-level scanner top_level_logic vs. its token-level model (string literals are single tokens): corresponded",
                "the library's evaluator on the boolean fragment (&&, ||, !, ?:, ==, in, exists) agrees with evalBool: corresponded"]
     rule = ("filter trees with connectives and/or/not/list, fan-out 1-3, depth <= 4: every tree shape with <= 5 nodes (quick) / <= 7 "
-            "nodes (thorough) plus random larger ones; leaves are boolean clause representatives of 17 top-level shapes (atom, !, &&, "
+            "nodes (thorough) plus random larger ones; leaves are boolean clause representatives of 18 top-level shapes (atom, !, &&, "
             "||, ?:, offhour-/onhour-like ?:, relation, in, call, index, parenthesised, a && (b || c), a || b && c, a string literal "
             "containing operators) or real Custodian clauses (value, marked-for-op, offhour, onhour, flow-logs, is-not-logging, ...) "
             "through the real rewriters; all 2^k truth assignments to the k clauses (k <= 6; 64 random ones above), each realised by "
@@ -502,7 +503,7 @@ class C18(Prop):
                 trees.append(rand_tree(rng, rng.randint(8, 10), 4))
         ctr = 0
         for t in trees:
-            reps = 1 if n_nodes(t) > 4 else 2
+            reps = 1 if (quick or n_nodes(t) > 4) else 2
             for r in range(reps):
                 ctr += 1
                 # compound shapes are over-represented: they are where embedding can go wrong
@@ -511,8 +512,12 @@ class C18(Prop):
                     return {"shape": rng.choice(pool), "i": i}
                 cases.append({"kind": "bool", "f": fill(t, mk), "seed": rng.randrange(1 << 16)})
         # every shape next to every shape under every connective, in both orders
-        for s1, s2 in itertools.product(shapes_all, shapes_all):
-            for conn in ("and", "or", "not", "list"):
+        pairs = [(s1, s2, conn) for s1, s2 in itertools.product(shapes_all, shapes_all) for conn in ("and", "or", "not", "list")]
+        if quick:
+            pairs = [p for p in pairs if p[0] in COMPOUND or p[1] in COMPOUND]
+            pairs = rng.sample(pairs, 360)
+        for s1, s2, conn in pairs:
+            if True:
                 cases.append({"kind": "bool", "f": [conn, [["prim", {"shape": s1, "i": 0}], ["prim", {"shape": s2, "i": 1}]]],
                               "seed": rng.randrange(1 << 16)})
         # real clauses
